@@ -475,3 +475,151 @@ Section RoomScene.
     Qed.
   End RotationBake.
 End RoomScene.
+
+(** ** 4. the receiver collection: the mono curve of the image room *)
+Section SeqPerm.
+  Lemma seq_reindex_perm (n : nat) (f : nat -> nat) :
+    bFun n f -> bInjective n f -> Permutation (map f (seq 0 n)) (seq 0 n).
+  Proof.
+    intros Hf Hinj. apply NoDup_Permutation_bis.
+    - apply NoDup_map_inj_in; [|apply seq_NoDup].
+      intros x y Hx Hy. apply in_seq in Hx. apply in_seq in Hy. apply Hinj; lia.
+    - now rewrite map_length.
+    - intros y Hy. apply in_map_iff in Hy. destruct Hy as (x & <- & Hx). apply in_seq in Hx.
+      apply in_seq. pose proof (Hf x). lia.
+  Qed.
+End SeqPerm.
+
+Section RoomMono.
+  Context {T : Type} {O : Ops T} {RL : RingLaws T} {OL : OrderLaws T} {FL : FieldLaws T}
+          {FlL : FloorLaws T} {DL : DivLaws T} {AL : AbsLaws T}.
+  Add Ring TRingFPS3 : (@ring_th T O RL).
+  Local Notation vec := (@vec T).
+
+  Variable sigma : nat -> nat.
+  Variables e0 e1 e2 : T.
+  Hypothesis Hperm : Permutation [sigma 0; sigma 1; sigma 2] [0; 1; 2].
+  Hypothesis He0 : e0 = 1%T \/ e0 = (- (1))%T.
+  Hypothesis He1 : e1 = 1%T \/ e1 = (- (1))%T.
+  Hypothesis He2 : e2 = 1%T \/ e2 = (- (1))%T.
+  Hypothesis Hdet : sdet sigma e0 e1 e2 = 1%T.
+  Notation m := (smap sigma e0 e1 e2).
+
+  Variable rm : @room T.
+  Hypothesis Hwalls : walls_ok rm.
+  Hypothesis Hout_ne : rm_ref_out rm <> [].
+  Notation rm' := (sperm_room sigma e0 e1 e2 rm).
+  Notation sc := (room_scene rm).
+  Notation sc' := (room_scene rm').
+  Notation np := (rm_np rm).
+
+  Variable pi : nat -> nat.
+  Hypothesis Hpi : relabels sigma e0 e1 e2 rm pi.
+  Variables spos rpos : vec.
+  Notation src := (room_source rm spos).
+  Notation src' := (room_source rm' (m spos)).
+  Notation rcv := (room_receiver rm rpos).
+  Notation rcv' := (room_receiver rm' (m rpos)).
+
+  Hypothesis Hsv : forall k, k < np ->
+    nthb (room_point_vis rm' (m spos)) (pi k) = nthb (room_point_vis rm spos) k.
+  Hypothesis Hrv : forall k, k < np ->
+    nthb (room_point_vis rm' (m rpos)) (pi k) = nthb (room_point_vis rm rpos) k.
+  Hypothesis Hvis : vis_transported sigma e0 e1 e2 rm pi.
+  Hypothesis Hacross : vis_across_walls rm.
+  Hypothesis HNus : nusselt_transported sigma e0 e1 e2 rm pi.
+
+  Lemma r_out_index_lt (r : @room T) (pos : vec) k : rm_ref_out r <> [] -> k < rm_np r ->
+    r_out_index (room_scene r) (room_receiver r pos) k < s_nd (room_scene r).
+  Proof.
+    intros Hne Hk. destruct (room_scene_wf r Hne) as (_ & Hlen & Hpos).
+    unfold r_out_index, nearest. rewrite <- (Hlen k Hk).
+    rewrite <- (map_length (fun d => vdist2 d (vnormalize (vsub (r_pos (room_receiver r pos)) (center (room_scene r) k))))).
+    apply argmin_lt. intros E. apply (f_equal (@length _)) in E. rewrite map_length, (Hlen k Hk) in E.
+    cbn [length] in E. lia.
+  Qed.
+
+  Lemma sc_r_dist k : k < np -> r_dist sc' rcv' (pi k) = r_dist sc rcv k.
+  Proof.
+    intros Hk. unfold r_dist.
+    rewrite (sc_center sigma e0 e1 e2 Hperm He0 He1 He2 rm Hwalls pi Hpi k Hk).
+    unfold room_receiver, receiver_at. cbn [r_pos]. apply (m_vdist sigma e0 e1 e2 Hperm He0 He1 He2).
+  Qed.
+  Lemma sc_r_factor k : k < np -> r_factor rcv' (pi k) = r_factor rcv k.
+  Proof.
+    intros Hk. unfold r_factor.
+    rewrite (sc_rcv_share sigma e0 e1 e2 Hperm He0 He1 He2 rm Hwalls pi Hpi rpos k Hk).
+    unfold room_receiver, receiver_at. cbn [r_vis]. now rewrite (Hrv k Hk).
+  Qed.
+
+  (** what patch [pi k] of the image room sends towards the carried receiver *)
+  Theorem sc_r_term tm K k b u : k < np -> b < s_nb sc -> u < n_samples tm ->
+    r_term sc' (patch_hist sc' tm src' K) rcv' (pi k) b u = r_term sc (patch_hist sc tm src K) rcv k b u.
+  Proof.
+    intros Hk Hb Hu. unfold r_term.
+    rewrite (sc_r_out_index sigma e0 e1 e2 Hperm He0 He1 He2 rm Hwalls pi Hpi rpos Hdet k Hk).
+    rewrite (room_patch_hist_relabel sigma e0 e1 e2 Hperm He0 He1 He2 rm Hwalls pi Hpi spos Hsv Hvis Hacross HNus
+               Hdet Hout_ne tm K k (r_out_index sc rcv k) b u Hk (r_out_index_lt rm rpos k Hout_ne Hk) Hb Hu).
+    now rewrite (sc_r_factor k Hk), (sc_r_dist k Hk).
+  Qed.
+
+  Theorem sc_patchwise tm K k b t : k < np -> b < s_nb sc -> t < n_samples tm ->
+    get3 (patchwise sc' tm (patch_hist sc' tm src' K) rcv') (pi k) b t =
+    get3 (patchwise sc tm (patch_hist sc tm src K) rcv) k b t.
+  Proof.
+    intros Hk Hb Ht.
+    assert (Hk' : pi k < s_np sc').
+    { cbn [room_scene s_np]. rewrite (sperm_room_np sigma e0 e1 e2 Hperm He0 He1 He2 rm Hwalls).
+      exact (relabel_lt sigma e0 e1 e2 rm pi Hpi k Hk). }
+    rewrite (patchwise_entry sc' tm _ rcv' (pi k) b t Hk' Hb Ht).
+    rewrite (patchwise_entry sc tm _ rcv k b t Hk Hb Ht).
+    rewrite (sc_r_delay sigma e0 e1 e2 Hperm He0 He1 He2 rm Hwalls pi Hpi rpos tm k Hk).
+    apply sc_r_term; [exact Hk|exact Hb|]. apply Nat.mod_upper_bound. lia.
+  Qed.
+
+  Lemma sc_direct_val b : direct_val sc' src' rcv' None b = direct_val sc src rcv None b.
+  Proof.
+    unfold direct_val, direct_r, room_source, source_at, room_receiver, receiver_at. cbn [src_pos r_pos].
+    rewrite <- (lin_sub m (m_linear sigma e0 e1 e2)), (m_vnorm sigma e0 e1 e2 Hperm He0 He1 He2).
+    reflexivity.
+  Qed.
+
+  (** the output curve of the image room, bin by bin *)
+  Theorem room_mono_relabel tm K direct b t : b < rm_nb rm -> t < n_samples tm ->
+    get2 (room_mono rm' tm (m spos) (m rpos) K direct) b t = get2 (room_mono rm tm spos rpos K direct) b t.
+  Proof.
+    intros Hb Ht. unfold room_mono. cbv zeta.
+    assert (Hb' : b < s_nb sc) by exact Hb.
+    assert (Hsum : get2 (mono sc' tm (patch_hist sc' tm src' K) src' rcv' false None) b t =
+                   get2 (mono sc tm (patch_hist sc tm src K) src rcv false None) b t).
+    { unfold mono. rewrite (mono_is_sum sc' tm _ b t Hb Ht), (mono_is_sum sc tm _ b t Hb' Ht).
+      assert (Hnp : s_np sc' = s_np sc) by exact (sc_np sigma e0 e1 e2 Hperm He0 He1 He2 rm Hwalls).
+      rewrite Hnp. cbn [room_scene s_np].
+      destruct Hpi as (Hfun & Hinj & _).
+      rewrite <- (sumf_perm _ _ (fun k => get3 (patchwise sc' tm (patch_hist sc' tm src' K) rcv') k b t)
+                    (seq_reindex_perm np pi Hfun Hinj)).
+      rewrite sumf_map. apply sumf_ext. intros k Hk. apply in_seq in Hk.
+      apply sc_patchwise; [lia|exact Hb|exact Ht]. }
+    destruct direct; [|exact Hsum].
+    rewrite (mono_direct sc' tm _ src' rcv' None b t Hb Ht), (mono_direct sc tm _ src rcv None b t Hb' Ht).
+    rewrite Hsum, (sc_direct_bin sigma e0 e1 e2 Hperm He0 He1 He2 rm spos rpos tm), sc_direct_val.
+    reflexivity.
+  Qed.
+
+  Lemma mono_shape (s0 : @scene T) tm E s r direct :
+    mono s0 tm E s r direct None =
+    tab (s_nb s0) (fun b => tab (n_samples tm) (fun t => get2 (mono s0 tm E s r direct None) b t)).
+  Proof.
+    destruct direct; unfold mono; [|unfold mono_of]; apply tab_ext; intros b Hb; apply tab_ext; intros t Ht;
+      now rewrite get2_tab by assumption.
+  Qed.
+
+  (** ... hence the IDENTICAL output list *)
+  Theorem room_mono_rotation tm K direct :
+    room_mono rm' tm (m spos) (m rpos) K direct = room_mono rm tm spos rpos K direct.
+  Proof.
+    pose proof (room_mono_relabel tm K direct) as H. unfold room_mono in *. cbv zeta in *.
+    rewrite (mono_shape sc'), (mono_shape sc).
+    apply tab_ext. intros b Hb. apply tab_ext. intros t Ht. now apply H.
+  Qed.
+End RoomMono.
